@@ -12,6 +12,11 @@ THEOREMS = {"glob_iff": "full: match_glob = wildcard semantics for every pattern
             "no_filter_selects_all": "full", "flatten_ignores_path": "full", "flatten_single_component": "full", "relocate_prefix": "full",
             "extract_reproduces_tree": "FULL, end to end on bytes: for every well-formed encodable tree, lha x of the archive that encodes it (headers by the C05 "
                                        "encoder, stored members) into an empty directory reproduces exactly that tree; no hypothesis about the reader",
+            "extract_reproduces_tree_all_methods": "FULL for the eleven methods with decoder round trips (stored, lzs, lz5, lh1, lh4-7, lhx, pm1, pm2), levels 1/2: "
+                                                   "member data written by the method's specification encoder",
+            "extract_selected": "full for parent-closed selections: wildcard arguments select exactly the matching members (tree of the selected entries)",
+            "extract_relocated": "full: w=DIR (clean relative DIR, nothing below its place): tree below cwd/DIR, DIR created 0755-umask",
+            "extract_flattened": "full: option i with pairwise distinct names: every selected file/link directly in the extraction directory",
             "extract_reproduces_tree_packed": "full: the same for any member packer with a decoder round trip (stored L1/L2, -lzs-, -lz5- instantiated)",
             "archive_denotes_tree": "full: the Denotes hypothesis of run_tree_partial is a theorem for such archives",
             "sample_tree_with_files_extracts": "non-vacuity incl. files and read-only directories",
@@ -592,7 +597,8 @@ def run_case(ctx, env, c):
             why = "extraction reported failure (exit status %d) although every member was extracted" % res["rc"]
     mop = "xrun2 %s %s %d %s %s %s %s %s" % (d["cmd"], optstr, 1 if d["as_root"] else 0, hx(res["abs_prefix"]), hx(d["answers"]),
                                            pre_m, fl, arch.hex())
-    top = tree_op(d, arch, res["abs_prefix"]) if in_theorem_domain(d) else None
+    top = tree_op(d, arch, res["abs_prefix"]) if in_theorem_domain(d) else \
+        (tree2_op(d, arch, res["abs_prefix"]) if option_theorem_kind(d) else None)
     return {"why": why, "c_out": c_out, "rc": res["rc"], "listing": res["listing"], "stdout": res["stdout"], "model_op": mop,
             "stderr": res["stderr"][:200], "cmd": d["cmd"], "tree_op": top}
 
@@ -614,6 +620,30 @@ def entry_desc(e):
     if e.kind == "link":
         return "l:%s:%s" % (path, hx(e.target))
     return "f:%s:%s:%s:%d" % (path, hx(vis(e)), pm, e.mtime)
+
+
+def option_theorem_kind(d):
+    """which option theorem of Props/C06 covers this invocation: 'sel' (wildcards), 'reloc' (w=DIR), 'flat' (i), or None"""
+    if d["cmd"] != "x" or d["pre"]:
+        return None
+    plain = [o for o in d["opts"] if o in THEOREM_OPTS]
+    w = [o for o in d["opts"] if o.startswith("w")]
+    flat = "i" in d["opts"]
+    if len(plain) + len(w) + (1 if flat else 0) != len(d["opts"]):
+        return None
+    if d["filters"] and not w and not flat:
+        return "sel"
+    if w and not d["filters"] and not flat:
+        return "reloc"
+    if flat and not w:
+        return "flat"
+    return None
+
+
+def tree2_op(d, arch, abs_prefix):
+    return "xtree2 %s %d %s %s %s %s" % (",".join(d["opts"]) or "-", 1 if d["as_root"] else 0, hx(abs_prefix),
+                                         ",".join(hx(f) for f in d["filters"]) or "-",
+                                         ",".join(entry_desc(e) for e in d["ents"]) or "-", arch.hex())
 
 
 def tree_op(d, arch, abs_prefix):
@@ -671,6 +701,24 @@ def evaluate(ctx, env, cases, with_model):
         if i in touts and not r["why"]:
             # the theorem run_tree_partial on this very archive: hypotheses evaluated by lhvt, conclusion compared with the real tree
             t = touts[i]
+            if t.startswith("kind="):
+                # an option theorem (extract_selected / extract_relocated / extract_flattened): when its decidable hypotheses hold
+                # for this generated case, the tree it promises must be the real tool's tree
+                m2 = re.match(r"kind=(\w+) hyp=([01]) tree=(\S*)$", t)
+                if m2 is None:
+                    corr.append(dict(rec, why="TIE: hypothesis driver output not understood: " + t[:200]))
+                    continue
+                kind = m2.group(1)
+                ctx.dist["option-theorem-%s-cases" % kind] += 1
+                if m2.group(2) == "1":
+                    ctx.dist["option-theorem-%s-hyp-holds" % kind] += 1
+                    real = sorted(x for x in r["listing"].split(";") if x.startswith("/726f6f74/"))
+                    if sorted(x for x in m2.group(3).split(";") if x) != real or r["rc"] != 0:
+                        corr.append(dict(rec, why="TIE: the tree promised by the option theorem of Props.C06 (%s) differs from the tree the real "
+                                         "tool produced" % kind, tree_out=t[:3000]))
+                    else:
+                        ctx.dist["option-theorem-%s-confirmed" % kind] += 1
+                continue
             ctx.dist["theorem-domain-cases"] += 1
             hyp = re.match(r"opts=1 wf=1 fuel=1 den=1 tree=(\S*)$", t)
             real = sorted(x for x in r["listing"].split(";") if x.startswith("/726f6f74/"))
@@ -706,6 +754,7 @@ LEVEL_TEXT = ("Lean theorems: extraction of a well-formed archive yields exactly
 LEVEL_NOTE = ("Partial: the file system is a model (no hard links, chown, whole-second times); tree equality is PROVED end to end on archive "
               "bytes for plain `lha x` of well-formed trees with explicit parent entries (extract_reproduces_tree: header encoder + stored/"
               "-lzs-/-lz5- members; run_tree_partial for any archive that denotes the tree) and checked by correspondence for options "
-              "i / w= / wildcards / pre-existing files / implicit parents / the other methods. See evidence.theorems.")
+              "pre-existing files / implicit parents / unclosed wildcard selections / -lk7-. Options i, w=DIR and parent-closed wildcard "
+              "selections are proved (extract_flattened, extract_relocated, extract_selected), all eleven other methods too. See evidence.theorems.")
 TECHNIQUE = ("Lean 4 proof (whole-tree theorem over the Fs/Extract/Reader models by loop invariant; glob semantics; MacBinary) + "
              "hypothesis evaluation on generated archives + file-system-model correspondence + independent tree oracle")
